@@ -43,6 +43,7 @@ let run () =
         | ["min"] -> Some FindMin
         | ["max"] -> Some FindMax
         | ["walk"; n] -> Some (Walk (nat_of_int (int_of_string n)))
+        | ["walk"; n; _] -> Some (Walk (nat_of_int (int_of_string n)))   (* reads between the steps: the same walk *)
         | ["near"; k; n] -> Some (Nearest (bytes_of_hex k, nat_of_int (int_of_string n)))
         | _ -> None in
       match o with
